@@ -30,7 +30,7 @@ SPELLINGS = [
     (None, "65534"), ("1", None), ("54321", "nogroup"),
     ("games", "games"), ("man", "man"),       # the same NAME in passwd and group, with different numeric ids (5/60, 6/12)
 ]
-HISTORIES = ["kill", "hup", "usr2", "hup-rebind"]
+HISTORIES = ["kill", "hup", "usr2", "hup-rebind", "hup-gain"]      # hup-gain: started without user/group, the reloaded config file brings them
 KINDS = ["sync", "gthread", "gevent", "eventlet"]
 
 
@@ -73,10 +73,13 @@ def run_case(case):
     uid = 0 if u is None else (int(u) if u.isdigit() else pwd.getpwnam(u).pw_uid)
     gid = 0 if g is None else (int(g) if g.isdigit() else grp.getgrnam(g).gr_gid)
     extra = []
-    if u is not None:
+    gain = case["history"] == "hup-gain"
+    if u is not None and not gain:
         extra += ["-u", u]
-    if g is not None:
+    if g is not None and not gain:
         extra += ["-g", g]
+    if gain:
+        cfg_uid, cfg_gid, uid, gid = uid, gid, 0, 0        # the first generation runs as the master does
     if case["initgroups"]:
         extra += ["--initgroups"]
     conf = []
@@ -129,7 +132,7 @@ def run_case(case):
             if ("uid=%d,%d,%d " % (uid, uid, uid)) not in body or ("gid=%d,%d,%d " % (gid, gid, gid)) not in body:
                 V("app-sees-ids", "application-reports-other-ids:" + label, body.strip(), {"uid": uid, "gid": gid})
         sp = sockpath or (srv.sockpath if case["bind"] == "unix" else None)
-        if sp and os.path.exists(sp):
+        if sp and os.path.exists(sp) and case["history"] != "hup-gain":      # (hup-gain: the socket was created before any user was configured)
             st = os.stat(sp)
             if (st.st_uid, st.st_gid) != (uid, gid):
                 V("socket-owner", "unix-socket-owner-wrong:" + label, {"owner": [st.st_uid, st.st_gid], "mode": oct(st.st_mode & 0o777)},
@@ -167,6 +170,28 @@ def run_case(case):
                 _wait(lambda: renv.children(srv.pid) and not (set(renv.children(srv.pid)) & set(gen0)), 10)
                 time.sleep(0.8)
                 check_generation("reloaded", srv.pid)
+            elif h == "hup-gain":
+                uid, gid = cfg_uid, cfg_gid
+                if case["initgroups"] and gid and uid:
+                    try:
+                        want_groups = sorted(os.getgrouplist(pwd.getpwuid(uid).pw_name, gid))
+                    except KeyError:
+                        want_groups = None
+                srv.write_conf(([("user = %r" % u)] if u is not None else []) + ([("group = %r" % g)] if g is not None else []))
+                os.kill(srv.pid, signal.SIGHUP)
+                _wait(lambda: renv.children(srv.pid) and not (set(renv.children(srv.pid)) & set(gen0)), 10)
+                time.sleep(0.8)
+                if not _wait(lambda: srv.request("/pid", timeout=2)[0] is not None, 6) and \
+                        (srv.logtext().count("Booting worker with pid") >= 6 or "Exception in worker process" in srv.logtext()):
+                    V("heartbeat-usable", "workers-crash-after-privilege-drop:after-reload", {"errors": [l for l in srv.logtext().splitlines() if "rror" in l][-4:]},
+                      "workers keep running")
+                else:
+                    check_generation("reloaded-with-identity", srv.pid)
+                    if not vio:
+                        before = renv.children(srv.pid)
+                        time.sleep(4.6)
+                        if set(before) - set(renv.children(srv.pid)) or "WORKER TIMEOUT" in srv.logtext():
+                            V("heartbeat-usable", "worker-replaced-within-2x-timeout:after-reload", {"before": before, "after": renv.children(srv.pid)}, "same workers")
             elif h == "hup-rebind":
                 new_path = os.path.join(srv.scratch, "second.sock")
                 srv.write_conf(["bind = 'unix:%s'" % new_path])
